@@ -29,6 +29,7 @@ ASSUMPTIONS = ['synthetic writers follow the layouts the readers document; for e
                'to the example file at the start of the run (record structure / byte-identical re-serialisation)',
                'formats without a stored example (rwms v1.4, Hadrons hdf5) are bound only through the documented layout']
 EXHAUSTIVE = True
+REPEAT = 2      # every case is evaluated twice in the same process: the second verdict must equal the first (call-history oracle)
 CHUNK = 1
 
 
